@@ -9,6 +9,8 @@ A history is a list of ops (JSON lists):
   ["group", kind, outer, byform, sref, m, script, args, kwargs, scripts?]
   ["grouplist", outer, byform, sref, m, script, args, kwargs, scripts?]   groupby(result_type="list").do/map(callable)
   ["groupcount" | "groupagg", byform, sref, m]  groupby(...).count() / .agg("unique_id", sum)
+  ["space", kind]                               the agents live in a legacy ContinuousSpace / SingleGrid / MultiGrid / NetworkGrid / a
+                                                discrete_space grid (CellAgents); removers look around and take the victim out first
   ["foreignset", n, order]                      a second model with n agents + a set mixing both models (oracle only)
 with  A      = ["nop"] | ["rmself", keep] | ["rm", id, keep] | ["create", cls, n, keep] | ["drop", id] | ["add", id]
                | ["raise"]                      the callback raises (the activation is aborted)
@@ -98,6 +100,7 @@ NCLS = 3
 MAXCREATE = 3
 SCALE_MAX = 5000          # "createn": populations of the scale stream
 SCALE_MODEL_MAX = 300     # above this population a history is run on the implementation + oracle only (the model's sweeps are quadratic)
+SPACE_KINDS = ["continuous", "multi", "single", "network", "cells", "continuous"]
 SCALE_SIZES = [255, 256, 257, 512, 513, 1024, 1025, 2048, 2049]
 KINDS = ["do", "shuffle_do", "map"]
 
@@ -404,6 +407,11 @@ def gen_cases(rng, tier):
     # the scale stream, spread over the case files (each file is evaluated by its own coqc; the corpus shifts positions a little)
     for j, c in enumerate(scale):
         cases.insert(min(len(cases), j * 250 + 7), c)
+    # agents living in a space: hunters look around (caches warm) and take later agents out of the space and the model
+    for i in range(120 if tier == "quick" else 2500):
+        c = _rand_case(rng, big=(i % 4 == 0))
+        c["ops"] = [["space", SPACE_KINDS[i % len(SPACE_KINDS)]]] + [o for o in c["ops"] if o[0] not in ("foreignset",)]
+        cases.append(c)
     # abandoned iterators (oracle only): dead references stay in the key list until the iterator goes away
     for i in range(40 if tier == "quick" else 1000):
         c = _rand_case(rng, big=False)
@@ -445,13 +453,13 @@ def _env():
 
     keyctr = _it.count(1)
 
-    def _make(name, bases=None, extra=None, reassign=False, keyed=False):
+    def _make(name, bases=None, extra=None, reassign=False, keyed=False, root=None):
         extra = extra or {}
 
         def __init__(self, model):
             if keyed:
                 self._key = next(keyctr)      # set BEFORE registration: __hash__ must not change while the agent is a dict key
-            mesa.Agent.__init__(self, model)
+            (root or mesa.Agent).__init__(self, model)
             # the driver's name of the agent: unique_id in the main model, 1000 + unique_id in a second model
             self._hid = self.unique_id + getattr(model, "_hid_base", 0)
             if reassign:
@@ -483,6 +491,13 @@ def _env():
                              "__eq__": lambda self, other: type(other) is type(self) and other._key == self._key,
                              "__hash__": lambda self: hash(("K2", self._key))}, reassign=True, keyed=True)
     classes = [k0, k1, k2]
+    from mesa.discrete_space import CellAgent
+
+    # the same three kinds of agents living in a discrete_space grid
+    c0 = _make("C0", (CellAgent,), root=CellAgent)
+    c1 = _make("C1", (CellAgent, Falsy), reassign=True, root=CellAgent)
+    c2 = _make("C2", (c1,), {"__len__": lambda self: 0}, reassign=True, root=CellAgent)
+    cell_classes = [c0, c1, c2]
 
     class HookModel(mesa.Model):
         """a Model subclass overriding the public registration hooks (calling super())"""
@@ -520,7 +535,7 @@ def _env():
 
     gc.collect()
     gc.freeze()
-    _ENV.update(ctx=ctx, classes=classes, RecRandom=RecRandom, mesa=mesa, HookModel=HookModel)
+    _ENV.update(ctx=ctx, classes=classes, RecRandom=RecRandom, mesa=mesa, HookModel=HookModel, cell_classes=cell_classes)
     return _ENV
 
 
@@ -590,6 +605,8 @@ class _Run:
         self.strong_forever = set()   # ids held by an abandoned iterator of the program
         self.iters = []
         self.foreign = set()     # ids of the agents of a second model
+        self.space = None        # ("continuous"|"single"|"multi"|"network"|"cells", space object): the agents live in a space
+        self.classes = env["classes"]
         self.models = []         # further models (their agents are named 1000 + unique_id)
         self.calls = []          # (uid, event index, args, kwargs, held_by_program) of the activation in progress
         self.nlog = []           # observation of nested activations
@@ -597,6 +614,77 @@ class _Run:
         self.failures = []
         self.opi = 0
         self.active = []         # ids of the agents whose callbacks are running (outermost first)
+
+    # --- the space the agents live in (the library's containers must not keep a removed agent alive)
+    def make_space(self, kind):
+        import warnings
+
+        with warnings.catch_warnings():
+            warnings.simplefilter("ignore")
+            if kind == "continuous":
+                from mesa.space import ContinuousSpace
+
+                sp = ContinuousSpace(20, 20, torus=bool(len(self.events) % 2))
+            elif kind in ("single", "multi"):
+                from mesa.space import MultiGrid, SingleGrid
+
+                sp = (SingleGrid if kind == "single" else MultiGrid)(6, 6, torus=True)
+            elif kind == "network":
+                import networkx as nx
+                from mesa.space import NetworkGrid
+
+                sp = NetworkGrid(nx.cycle_graph(7))
+            else:
+                from mesa.discrete_space import OrthogonalMooreGrid
+
+                sp = OrthogonalMooreGrid((5, 5), torus=True, random=self.model.random)
+                self.classes = self.env["cell_classes"]
+        self.space = (kind, sp)
+
+    def space_place(self, ag):
+        if self.space is None:
+            return
+        kind, sp = self.space
+        h = ag._hid
+        if kind == "continuous":
+            sp.place_agent(ag, ((h * 3.7) % 20, (h * 1.3) % 20))
+        elif kind == "multi":
+            sp.place_agent(ag, (h % 6, (h // 6) % 6))
+        elif kind == "single":
+            if sp.is_cell_empty((h % 6, (h // 6) % 6)):
+                sp.place_agent(ag, (h % 6, (h // 6) % 6))
+        elif kind == "network":
+            sp.place_agent(ag, h % 7)
+        else:
+            ag.cell = sp[(h % 5, (h // 5) % 5)]
+
+    def space_look(self, ag):
+        """the agent looks around (this builds / warms the neighbourhood caches of the space); nothing is kept"""
+        kind, sp = self.space
+        pos = getattr(ag, "pos", None)
+        if kind == "continuous" and pos is not None:
+            n = sp.get_neighbors(pos, 6.0, include_center=True)
+        elif kind in ("single", "multi") and pos is not None:
+            n = sp.get_neighbors(pos, moore=True, include_center=True, radius=2)
+            sp.get_neighborhood(pos, moore=False, include_center=False, radius=1)
+        elif kind == "network" and pos is not None:
+            n = sp.get_neighbors(pos, include_center=True, radius=2)
+        elif kind == "cells" and getattr(ag, "cell", None) is not None:
+            n = list(ag.cell.get_neighborhood(radius=2, include_center=True).agents) + list(ag.cell.neighborhood.agents)
+        else:
+            n = None
+        del n
+
+    def space_remove(self, hunter, tgt):
+        """a hunter looks around, then takes tgt out of the space (before it is removed from the model)"""
+        if self.space is None:
+            return
+        kind, sp = self.space
+        self.space_look(hunter if hunter is not None else tgt)
+        if kind == "cells":
+            return                      # CellAgent.remove() leaves the cell itself
+        if getattr(tgt, "pos", None) is not None:
+            sp.remove_agent(tgt)
 
     # --- what a callback / the program can do
     def exec_act(self, me, a, where=None):
@@ -610,6 +698,8 @@ class _Run:
                 tgt, keep = self.wv.get(a[1]), a[2]
             if tgt is not None:
                 uid = tgt._hid
+                if uid in self.registered:
+                    self.space_remove(me, tgt)
                 tgt.remove()
                 if uid in self.registered:
                     self.registered.discard(uid)
@@ -621,9 +711,10 @@ class _Run:
         elif k in ("create", "createn"):
             _, c, n, keep = a
             for _ in range(max(0, min(int(n), MAXCREATE if k == "create" else SCALE_MAX))):
-                ag = self.env["classes"][c % NCLS](self.model)
+                ag = self.classes[c % NCLS](self.model)
                 uid = ag._hid
                 self.wv[uid] = ag
+                self.space_place(ag)
                 self.registered.add(uid)
                 self.created_at[uid] = len(self.events)
                 self.events.append(("create", uid))
@@ -736,7 +827,7 @@ class _Run:
         if sref[0] == "all":
             return self.model.agents
         if sref[0] == "type":
-            return self.model.agents_by_type.get(self.env["classes"][sref[1] % NCLS])
+            return self.model.agents_by_type.get(self.classes[sref[1] % NCLS])
         k = sref[1]
         return self.user_sets[k] if 0 <= k < len(self.user_sets) else None
 
@@ -750,7 +841,7 @@ class _Run:
         out = [nxt, -10] + [a._hid for a in self.model._agents] + [-11] + sorted(o._hid for o in self.ext)
         out += [-20] + self.ids(self.model.agents)
         for c in range(NCLS):
-            s = self.model.agents_by_type.get(self.env["classes"][c])
+            s = self.model.agents_by_type.get(self.classes[c])
             out += [-21, c] + ([-23] if s is None else self.ids(s))
         for k, s in enumerate(self.user_sets):
             out += [-22, k] + self.ids(s)
@@ -760,7 +851,7 @@ class _Run:
         """agents_by_type[c] = the registry filtered by exact class c, in order; every class with a registered agent is a key"""
         out = []
         regs = list(self.model._agents)
-        for c, cls in enumerate(self.env["classes"]):
+        for c, cls in enumerate(self.classes):
             want = [a._hid for a in regs if type(a) is cls]
             s = self.model.agents_by_type.get(cls)
             got = None if s is None else self.ids(s)
@@ -1295,6 +1386,12 @@ def _run_impl(env, case):
                             o += [int(k), int(v)] if isinstance(v, int) else [int(k), -99]
                     del gb
                     obs.append(o + run.view())
+            elif kind == "space":
+                # from now on the agents of this history live in a space (placed at creation, looked around and taken out by
+                # whoever removes them); the model is not concerned: a correct library keeps no reference of its own
+                if run.space is None and not run.registered:
+                    run.make_space(op[1])
+                obs.append(run.view())
             elif kind == "iterhold":
                 # the program starts iterating over a set and abandons the iterator after the first agent: the suspended
                 # generator keeps that agent alive and keeps the WeakKeyDictionary in "iterating" mode (removals of dead keys are
@@ -1448,7 +1545,7 @@ def coq_case(case):
             out.append(f"OGroupList {_sref(sref)} {L.z(m if ok else 0)} {_script(script)} {_scripts_lit(scripts)} {L.zlist(list(args) + _kw_values(kwargs))}")
         elif k in ("groupcount", "groupagg"):
             out.append(f"{'OGroupCount' if k == 'groupcount' else 'OGroupAgg'} {_sref(op[2])} {L.z(op[3] if op[3] in (1, 2, 3) else 0)}")
-        elif k in ("foreignset", "iterhold"):
+        elif k in ("foreignset", "iterhold", "space"):
             out.append("OCollect")   # never evaluated: histories with a second model are oracle-only
         else:
             raise ValueError(k)
@@ -1474,6 +1571,8 @@ def op_kinds(case):
             out.append("second-model-set")
         elif op[0] == "iterhold":
             out.append("abandoned-iterator")
+        elif op[0] == "space":
+            out.append(f"space:{op[1]}")
         elif op[0] in ("groupcount", "groupagg"):
             out.append(f"groupby.{op[0][5:]}/{op[1]}")
         elif op[0] == "act":
